@@ -1,0 +1,10 @@
+//go:build verif
+
+package dcache
+
+// VerifEach calls f for every cached name.
+func (dc *Dcache) VerifEach(f func(name string, d Dentry)) {
+	for name, d := range dc.cache {
+		f(name, d)
+	}
+}
